@@ -60,7 +60,7 @@ ASSUMPTIONS = [
     "built-in extensions commute - catalogued as `assumed_commutative`, exercised by the oracle (the launcher reorders "
     "that listing too and the generated sources use attrs, zope.interface and deprecate)",
     "module and package names are identifiers (urllib.parse.quote is the identity on every name the url stream sends); "
-    "no generated root is called `index` or like a summary page",
+    "no generated root is called `index` (that run aborts with ELOOP, see notes); one fixed project has a root named like a summary page",
     "sorted(package_path.iterdir()) compares pathlib paths of one directory, i.e. their names as str (code point order)",
     "the output-directory model is flat: names are paths relative to the output directory, links point to names of the "
     "same directory, at most 40 links are followed (Linux); directories (mkdir(exist_ok=True)) are not entries",
@@ -739,7 +739,12 @@ def run(ctx: Ctx) -> None:
         site_function_stream(ctx, st)
         os_semantics_stream(ctx, st, scratch)
         nproj = 12 if ctx.quick else 200
-        projects: List[Dict[str, Any]] = []
+        # always there: a single root module named like a summary page - its page replaces classIndex.html, which then
+        # becomes the root symlink; a re-run writes the summary page THROUGH that link (run_writes_through)
+        projects: List[Dict[str, Any]] = [{
+            "id": "fixed-classIndex", "kind": "generated", "explicit": None, "args": ["--docformat=plaintext"],
+            "roots": ["classIndex.py"], "docformat": "plaintext",
+            "files": {"classIndex.py": '"""A module named like a summary page."""\nclass K:\n    """k"""\n'}}]
         i = 0
         while len(projects) < nproj:
             p = gen_project(ctx.rng, i)
